@@ -45,6 +45,8 @@ pub enum Ev {
     WrongCookie { salt: u32 },
     /// poll and answer (one normal exchange)
     Exchange,
+    /// the server's filter changes (its own sources changed); later answers come from the new filter
+    ServerChanges { filter: FilterSpec },
 }
 
 #[derive(Debug, Clone, Serialize, Deserialize)]
@@ -109,6 +111,7 @@ fn ev() -> BoxedStrategy<Ev> {
         3 => any::<u16>().prop_map(|which| Ev::Stale { which }),
         2 => (0u8..=128).prop_map(|words| Ev::WrongSize { words }),
         2 => any::<u32>().prop_map(|salt| Ev::WrongCookie { salt }),
+        1 => filterspec().prop_map(|filter| Ev::ServerChanges { filter }),
     ]
     .boxed()
 }
@@ -152,8 +155,12 @@ fn response_over_the_wire(resp: &ReferenceIdResponse<'_>) -> Result<Vec<u8>, Str
 fn check_transfer(chunk_log2: u8, spec: &FilterSpec, salt: u32, events: &[Ev], finish: bool) -> Outcome {
     let mut labels = Labels::default();
     let chunk: usize = 1 << (2 + chunk_log2 % 8); // 4..=512
-    let (server, server_bytes) = spec.build();
+    let (mut server, mut server_bytes) = spec.build();
     ensure!(server.as_bytes() == &server_bytes, "filter-construction", "filter built through a one-chunk transfer differs from its bytes");
+    // what the client was sent last for every byte of the filter (= the server's filter while that never changes)
+    let mut told = [0u8; 512];
+    let mut current_ids: Vec<u64> = spec.ids.clone();
+    let mut changed = false;
     let Some(mut client) = RemoteBloomFilter::new(chunk as u16) else {
         return Outcome::fail("valid-chunk-size-rejected", format!("chunk size {chunk} rejected"));
     };
@@ -189,6 +196,15 @@ fn check_transfer(chunk_log2: u8, spec: &FilterSpec, salt: u32, events: &[Ev], f
         // (cookie, response bytes, expected acceptance, what the model does on acceptance)
         let delivery: Option<(NtpClientCookie, Vec<u8>, bool)> = match e {
             Ev::Exchange => unreachable!(),
+            Ev::ServerChanges { filter } => {
+                let (f, b) = filter.build();
+                server = f;
+                server_bytes = b;
+                current_ids = filter.ids.clone();
+                changed = true;
+                labels.add("server-filter-changed");
+                None
+            }
             Ev::Poll => {
                 polls += 1;
                 let c = cookie(salt, polls);
@@ -272,6 +288,7 @@ fn check_transfer(chunk_log2: u8, spec: &FilterSpec, salt: u32, events: &[Ev], f
             if want_ok {
                 ensure!(got.is_ok(), "answer-to-outstanding-request-rejected", "event #{k}: {got:?}");
                 let (off, _) = sent[outstanding.unwrap()];
+                told[off..off + chunk].copy_from_slice(&server_bytes[off..off + chunk]);
                 next_offset = (off + chunk) % 512;
                 accepted_chunks += 1;
                 outstanding = None;
@@ -285,11 +302,16 @@ fn check_transfer(chunk_log2: u8, spec: &FilterSpec, salt: u32, events: &[Ev], f
         let complete = accepted_chunks >= 512 / chunk;
         match client.full_filter() {
             Some(f) => {
-                ensure!(f.as_bytes() == &server_bytes, "full-filter-differs-from-server-filter",
-                    "after event #{k} ({accepted_chunks} accepted chunks of {chunk}): first differing byte {:?}", f.as_bytes().iter().zip(server_bytes.iter()).position(|(a, b)| a != b));
+                // the client holds exactly the bytes it was sent last for every chunk; while the server's filter
+                // has not changed (or a whole round was fetched since) that is the server's filter
+                ensure!(f.as_bytes() == &told, "full-filter-differs-from-server-filter",
+                    "after event #{k} ({accepted_chunks} accepted chunks of {chunk}, server filter changed: {changed}): first differing byte {:?}", f.as_bytes().iter().zip(told.iter()).position(|(a, b)| a != b));
                 ensure!(complete, "filter-reported-before-all-chunks-arrived", "after event #{k}: only {accepted_chunks} of {} chunks accepted", 512 / chunk);
-                for s in &spec.ids {
-                    ensure!(f.contains_id(&server_id(*s)), "false-negative-after-transfer", "id with seed {s} was added on the server but is not reported by the transferred filter");
+                if told == server_bytes {
+                    for s in &current_ids {
+                        ensure!(f.contains_id(&server_id(*s)), "false-negative-after-transfer", "id with seed {s} was added on the server but is not reported by the transferred filter");
+                    }
+                    labels.add_if(changed, "caught-up-with-changed-filter");
                 }
                 labels.add("filter-complete");
             }
@@ -440,9 +462,9 @@ fn check_members(a: &[u64], b: &[u64], absent: &[u64]) -> Outcome {
 impl Property for C34 {
     type Case = Case;
     const ID: &'static str = "C34";
-    const RULE: &'static str = "60% transfer: chunk size 4<<k (k=0..7), server filter = 0..40 seeded server ids optionally OR-ed with seeded random bytes (dense..sparse), 0..60 events over {poll+answer, poll (replaces the outstanding request, unique cookie), true answer, answer to an earlier request with its own cookie, right cookie with wrong size 0..512, correct bytes with an unused cookie}, optionally followed by 512/chunk clean exchanges; requests and answers pass through the extension-field encoders/decoders; 15% server library call for any (offset 0..65535, payload 0..1023 bytes); 10% server on the wire via Server::handle (v5 request with a 4..512-byte reference-id request whose offset field is patched to any value, answer EF parsed by hand); 15% membership of ids added directly / by add / union / collect. Non-trivial = transfer with an accepted chunk and (a rejected delivery or a completed filter); any server probe; membership with >= 2 ids (distinct = distinct case)";
+    const RULE: &'static str = "60% transfer: chunk size 4<<k (k=0..7), server filter = 0..40 seeded server ids optionally OR-ed with seeded random bytes (dense..sparse), 0..60 events over {poll+answer, poll (replaces the outstanding request, unique cookie), true answer, answer to an earlier request with its own cookie, right cookie with wrong size 0..512, correct bytes with an unused cookie, the server's filter being replaced by another one}, optionally followed by 512/chunk clean exchanges; requests and answers pass through the extension-field encoders/decoders; 15% server library call for any (offset 0..65535, payload 0..1023 bytes); 10% server on the wire via Server::handle (v5 request with a 4..512-byte reference-id request whose offset field is patched to any value, answer EF parsed by hand); 15% membership of ids added directly / by add / union / collect. Non-trivial = transfer with an accepted chunk and (a rejected delivery or a completed filter); any server probe; membership with >= 2 ids (distinct = distinct case)";
     const ASSUMPTIONS: &'static [&'static str] = &[
-        "the server filter does not change during one transfer",
+        "when the server's filter changes during a transfer the client is expected to hold, for every chunk, the bytes it was sent last (it equals the server's filter again once a whole round was fetched after the change)",
         "client cookies of different polls are distinct (the client draws 64 random bits per poll)",
         "an arbitrary filter is built by pushing 512 bytes through a one-chunk RemoteBloomFilter (BloomFilter has no byte constructor); the result is compared with the bytes before use",
         "'or not at all' is accepted for any request; an answer to the client's own (always in-range) chunk request is required",
